@@ -123,6 +123,11 @@ func ClientBasicAuth(r *http.Request, storage Storage) (clientID string, err err
 	if err != nil {
 		return "", oidc.ErrInvalidClient().WithParent(ErrInvalidAuthHeader)
 	}
+	// an empty secret is no credential, whatever the storage makes of it (a storage that compares
+	// secrets directly matches it for every client stored without one)
+	if clientSecret == "" {
+		return "", oidc.ErrInvalidClient().WithParent(ErrInvalidAuthHeader)
+	}
 	if err := storage.AuthorizeClientIDSecret(r.Context(), clientID, clientSecret); err != nil {
 		return "", oidc.ErrUnauthorizedClient().WithParent(err)
 	}
